@@ -327,9 +327,10 @@ def observe_align(case, pool):
             raise Harness(f"guess_protein_restrains failed on the auto-guess pair: {type(e).__name__}: {e}")
     deform = None if case["deform"] is None else tuple(case["deform"])
     exc = None
+    arg = None if user is None else list(user)       # ONE list object, handed to two alignments in a row (see "again" below)
     with S.patched(A, minimize_molecules=recorder):
         try:
-            al.align_molecules(None if user is None else list(user), deform, bool(case["ignore_h"]))
+            al.align_molecules(arg, deform, bool(case["ignore_h"]))
         except Exception as e:  # the property demands a result
             exc = f"{type(e).__name__}: {e}"
     try:
@@ -337,7 +338,33 @@ def observe_align(case, pool):
         pos_e = np.array(al.end.atoms_positions, dtype=float)
     except Exception as e:
         raise Harness(f"cannot read positions after the call: {e}")
-    return {"calls": calls, "exc": exc, "pos_s": pos_s, "pos_e": pos_e, "spec_s": ss, "spec_e": se, "guessed": guessed}
+    out = {"calls": calls, "exc": exc, "pos_s": pos_s, "pos_e": pos_e, "spec_s": ss, "spec_e": se, "guessed": guessed}
+    if arg is not None and exc is None and not case.get("_no_again"):
+        # the same restraint list object given to a second alignment of the same pair: it must designate the same atoms again
+        calls2 = []
+
+        def recorder2(*a, **k):
+            names = ("mol1_positions", "mol2_positions", "mol2_com", "sigma_scale", "n_steps", "restriction", "mol2_bonds_info",
+                     "displacement_module", "sim_type")
+            rec = dict(zip(names, a))
+            rec.update(k)
+            calls2.append(rec)
+            return rec.get("mol2_positions")
+        try:
+            al2 = A.Alignment(start=pool.molecule(ss), end=pool.molecule(se))
+            exc2 = None
+            with S.patched(A, minimize_molecules=recorder2):
+                try:
+                    al2.align_molecules(arg, deform, bool(case["ignore_h"]))
+                except Exception as e:
+                    exc2 = f"{type(e).__name__}: {e}"
+            out["again"] = {"calls": calls2, "exc": exc2, "pos_s": np.array(al2.start.atoms_positions, dtype=float),
+                            "pos_e": np.array(al2.end.atoms_positions, dtype=float), "spec_s": ss, "spec_e": se, "guessed": guessed}
+        except Harness:
+            raise
+        except Exception:
+            pass
+    return out
 
 
 def _rigid(pos, gen, what):
@@ -445,6 +472,19 @@ def _judge_call(case, o, c, exp_s, exp_e, user, wrong=None):
 
 def judge_align(case, o, wrong=None):
     """Evaluate the clauses on an observation.  `wrong` selects a deliberately wrong clause (guards)."""
+    cl = _judge_align(case, o, wrong)
+    if o.get("again") is not None and wrong is None:
+        try:
+            cl2 = _judge_align(case, o["again"], None)
+        except Harness:
+            cl2 = {}
+        bad2 = [(k, v) for k, v in cl2.items() if v is not None and cl.get(k) is None]
+        cl["ensures.same_restraint_list_object_given_to_a_second_alignment_designates_the_same_atoms"] = (
+            None if not bad2 else f"second alignment with the same list object: [{bad2[0][0]}] {bad2[0][1]}")
+    return cl
+
+
+def _judge_align(case, o, wrong=None):
     cl = {}
     ns, ne = sum(case["lens_s"]), sum(case["lens_e"])
     cl["ensures.returns_without_exception"] = None if o["exc"] is None else f"align_molecules raised {o['exc']}"
